@@ -1,5 +1,6 @@
 import Tmcg.Base
 import Tmcg.Model.Powm
+import Tmcg.Model.Sigma
 /-
   Model of src/PedersenVSS.cc (`Share` dealer / receiver, `Reconstruct`), of
   `GennaroJareckiKrawczykRabinDKG::Generate / Reconstruct / CheckKey`
@@ -996,5 +997,184 @@ def runGen (G : Grp) (n t : Nat) (ins : List PartyIn) : List (Party GenSt) :=
     { dev := pin.dev1, piCnt := List.replicate n 0, inbox := Inbox.empty n,
       st := { n := n, t := t, i := i, sfb := pin.dev1.sfb } })
   runRounds (genStep G ins n t) (List.range (6 + t + 1)) ps0
+
+
+/-! ### threshold Schnorr signatures on top of the key generation (`GennaroJareckiKrawczykRabinNTS`)
+
+  `Sign` runs a second key generation (`k_dkg`) for the nonce, publishes `s_i = u_i + c z_i`, checks
+  the other parties' values against `r_i y_i^c` and reconstructs the contributions of the parties that
+  failed: `k_dkg->Reconstruct(complaints)`, then `dkg->Reconstruct(complaints)`, then
+  `dkg->Reconstruct(QUAL \ QUAL')`.
+
+  The first two of these calls open a broadcast instance with THE SAME identifier (the identifier of
+  `Reconstruct` does not contain the label of the object) and restart the sequence numbers, so in the
+  second call the reliable broadcast discards, as repetitions, whatever a party that already
+  broadcast in the first call sends: such a party's values never arrive.  The model expresses this
+  with a tag nobody reads (`tagDead`). -/
+
+def tagA (n : Nat) (l : List Nat) : Tag := some ((n + 1) :: l)
+def tagB (n : Nat) (l : List Nat) : Tag := some ((n + 2) :: l)
+def tagDead (n : Nat) (l : List Nat) : Tag := some ((n + 3) :: l)
+def tagC (n : Nat) (l : List Nat) : Tag := some ((n + 4) :: l)
+
+/-- `genRecCollect` for an explicit complaint list and instance tag -/
+def recCollectT (G : Grp) (st : GenSt) (racc : List Nat) (tag : Tag) (it : Nat) :
+    List Nat → Inbox → List Nat → List Int → Except Err (Inbox × List Nat × List Int)
+  | [], I, parties, shares => .ok (I, parties, shares)
+  | jt :: rest, I, parties, shares =>
+    if jt = st.i ∨ racc.contains jt then recCollectT G st racc tag it rest I parties shares
+    else
+      match I.popB tag jt with
+      | (none, I1) => recCollectT G st racc tag it rest I1 parties shares
+      | (some foo, I1) =>
+        match I1.popB tag jt with
+        | (none, I2) => recCollectT G st racc tag it rest I2 parties shares
+        | (some bar, I2) =>
+          if absGe foo G.q || absGe bar G.q then recCollectT G st racc tag it rest I2 parties shares
+          else do
+            let lhs ← pedF G foo bar
+            let rhs ← commitProd G.p (jt + 1) (getRow st.C it)
+            recCollectT G st racc tag it rest I2 (if lhs == rhs then parties ++ [jt] else parties) (shares.set jt foo)
+
+structure SignSt where
+  n : Nat
+  t : Nat
+  i : Nat
+  sfb : Bool
+  key : GenSt
+  non : GenSt
+  keyOk : Bool
+  m : Int
+  stage : Nat := 0       -- 0: inside k_dkg->Generate, 1: waiting for the s_j, 2: reconstruction calls
+  gk : Nat := 0          -- next round of k_dkg->Generate
+  r1 : Bool := false
+  r2 : Bool := false
+  c : Int := 0
+  s : Int := 0
+  si : List Int := []
+  compl : List Nat := []
+  compl2 : List Nat := []
+  ph : Nat := 0          -- which `Reconstruct` call: 0 = k_dkg, 1 = dkg (same list), 2 = dkg (QUAL \ QUAL')
+  todo : List Nat := []
+  sentA : Bool := false
+
+/-- between two accused parties / two `Reconstruct` calls; `fuel` bounds the number of calls entered -/
+def signAdvance (G : Grp) : Nat → SignSt → SignSt × List Op × Status
+  | 0, st => (st, [], .ret false)
+  | f + 1, st =>
+    match st.todo with
+    | it :: _ =>
+      let act := if st.ph = 0 then st.non else st.key
+      let racc := if st.ph = 2 then st.compl2 else st.compl
+      if !act.qual.contains it then (st, [], .ret false)
+      else
+        let sends := !racc.contains st.i && act.qual.contains st.i
+        let tagS : Tag := if st.ph = 0 then tagA st.n racc
+          else if st.ph = 1 then (if st.sentA then tagDead st.n racc else tagB st.n racc)
+          else tagC st.n racc
+        let ops : List Op := if sends then [Op.bc tagS (getI act.s it), Op.bc tagS (getI act.sp it)] else []
+        ((if st.ph = 0 && sends then { st with sentA := true } else st), ops, .run)
+    | [] =>
+      if st.ph = 0 then signAdvance G f { st with ph := 1, todo := st.compl }
+      else if st.ph = 1 then
+        let si1 := st.compl.foldl (fun (l : List Int) it =>
+          l.set it (((st.c * getI st.key.z it) % G.q + getI st.non.z it) % G.q)) st.si
+        let c2 := st.key.qual.filter (fun j => !st.non.qual.contains j)
+        if c2.length > st.t then ({ st with si := si1, compl2 := c2 }, [], .ret false)
+        else signAdvance G f { st with si := si1, compl2 := c2, ph := 2, todo := c2 }
+      else
+        let si2 := st.compl2.foldl (fun (l : List Int) it => l.set it ((st.c * getI st.key.z it) % G.q)) st.si
+        let sv := st.key.qual.foldl (fun (acc : Int) it => (acc + getI si2 it) % G.q) 0
+        ({ st with si := si2, s := sv, ph := 3 }, [], .ret true)
+
+/-- the shares for the accused party at the head of `todo` in the running `Reconstruct` call -/
+def signRecStep (G : Grp) (st : SignSt) (I : Inbox) : Except Err (SignSt × Inbox × List Op × Status) :=
+  match st.todo with
+  | [] => pure (st, I, [], .ret false)
+  | it :: rest => do
+    let act := if st.ph = 0 then st.non else st.key
+    let racc := if st.ph = 2 then st.compl2 else st.compl
+    let tagR : Tag := if st.ph = 0 then tagA st.n racc else if st.ph = 1 then tagB st.n racc else tagC st.n racc
+    let shares0 := (zeros st.n).set st.i (getI act.s it)
+    let (I1, parties, shares) ← recCollectT G act racc tagR it act.qual I [st.i] shares0
+    if parties.length ≤ st.t then pure (st, I1, [], .ret false)
+    else
+      let ps := parties.take (st.t + 1)
+      match lagrange0 G.q ps (getI shares) with
+      | none => pure (st, I1, [], .ret false)
+      | some zv =>
+        let act1 := { act with z := act.z.set it zv }
+        let st1 := if st.ph = 0 then { st with non := act1 } else { st with key := act1 }
+        match interpolatePolynom G.q (ps.map (fun (j : Nat) => ((j : Int) + 1))) (ps.map (getI shares)) with
+        | none => pure (st1, I1, [], .ret false)
+        | some _ =>
+          let (st2, ops, status) := signAdvance G 4 { st1 with todo := rest }
+          pure (st2, I1, ops, status)
+
+/-- step 2 and the first half of step 3 of `Sign`, right after `k_dkg->Generate` returned `true` -/
+def signChallenge (G : Grp) (H : String → Int) (st : SignSt) : SignSt × List Op :=
+  let c0 := H (Sigma.shashInput [st.m, st.non.y])
+  let c := if st.sfb && st.r1 then c0 + 1 else c0
+  if st.key.qual.contains st.i && st.non.qual.contains st.i then
+    let v0 := ((c * getI st.key.z st.i) % G.q + getI st.non.z st.i) % G.q
+    let v := if st.sfb && st.r2 then v0 + 1 else v0
+    ({ st with c := c, si := (zeros st.n).set st.i v, stage := 1 }, [Op.bc none v])
+  else ({ st with c := c, si := zeros st.n, stage := 1 }, [])
+
+/-- the other parties' `s_j` and their check `g^{s_j} = r_j y_j^c` -/
+def signReadS (G : Grp) (st : SignSt) : List Nat → Inbox → List Int → List Nat → Except Err (Inbox × List Int × List Nat)
+  | [], I, si, cm => .ok (I, si, cm)
+  | j :: rest, I, si, cm =>
+    if j = st.i ∨ !st.key.qual.contains j ∨ !st.non.qual.contains j then signReadS G st rest I si cm
+    else
+      match I.popB none j with
+      | (none, I1) => signReadS G st rest I1 si (cm ++ [j])
+      | (some v, I1) =>
+        let si1 := si.set j v
+        if absGe v G.q then signReadS G st rest I1 si1 (cm ++ [j])
+        else do
+          let lhs ← fpowm G.tabG G.g v G.p
+          let yc ← mpzPowm (getI st.key.yi j) st.c G.p
+          let rhs := yc * getI st.non.yi j % G.p
+          signReadS G st rest I1 si1 (if lhs != rhs then cm ++ [j] else cm)
+
+/-- one step of `Sign`; `stepK` is the round function of the nonce generation -/
+def signStep (G : Grp) (H : String → Int) (stepK : Nat → Step GenSt) : Step SignSt :=
+  fun st I =>
+    if !st.keyOk then pure (st, I, [], .ret false)
+    else if st.stage = 0 then do
+      let (non1, I1, ops, status) ← stepK st.gk st.non I
+      let st1 := { st with non := non1, gk := st.gk + 1 }
+      match status with
+      | .run => pure (st1, I1, ops, .run)
+      | .ret false => pure (st1, I1, ops, .ret false)
+      | .ret true =>
+        let (st2, ops2) := signChallenge G H st1
+        pure (st2, I1, ops ++ ops2, .run)
+    else if st.stage = 1 then do
+      let (I1, si, cm) ← signReadS G st (List.range st.n) I st.si []
+      let compl := sortUniq st.n cm
+      let st1 := { st with si := si, compl := compl, stage := 2, ph := 0, todo := compl }
+      if compl.length > st.t then pure (st1, I1, [], .ret false)
+      else
+        let (st2, ops, status) := signAdvance G 4 st1
+        pure (st2, I1, ops, status)
+    else signRecStep G st I
+
+/-- key generation (`NTS::Generate`) followed by one `Sign(m)`; `ins1` / `ins2` are the coins and
+    scripts of the two calls (the first two weak coins of `ins2` are `Sign`'s own switches) -/
+def runSign (G : Grp) (H : String → Int) (n t : Nat) (m : Int) (ins1 ins2 : List PartyIn) : List (Party SignSt) :=
+  let keys := runGen G n t ins1
+  let ins2k := ins2.map (fun pin => { pin with weak := pin.weak.drop 2 })
+  let ps0 : List (Party SignSt) := (List.range n).zip (keys.zip ins2) |>.map (fun (i, K, pin) =>
+    let w := pin.weak
+    { dev := pin.dev1, fs := { dead := K.fs.dead }, piCnt := List.replicate n 0, inbox := Inbox.empty n,
+      err := K.err,
+      st := { n := n, t := t, i := i, sfb := pin.dev1.sfb, key := K.st,
+              non := { n := n, t := t, i := i, sfb := pin.dev1.sfb },
+              keyOk := K.status == .ret true, m := m,
+              r1 := (match w with | a :: _ => a % 2 == 1 | [] => false),
+              r2 := (match w with | _ :: b :: _ => b % 2 == 1 | _ => false) } })
+  runRounds (fun _ i => signStep G H (fun k => genStep G ins2k n t k i)) (List.range (6 + t + 1 + 2 + 3 * t + 2)) ps0
 
 end Tmcg.Dkg
